@@ -430,10 +430,15 @@ func C06(job *Job, r *Report) {
 	}
 	if job.Part == "" || job.Part == "sched" {
 		pb := 2
-		if job.Tier != "quick" {
-			pb = 1 // with the dumper thread; the two small scenarios are covered at 2 by quick
+		sub := &Job{Check: job.Check, Tier: job.Tier, Shard: job.Shard, NShards: job.NShards, Seed: job.Seed}
+		all := c06SchedScenarios(job.Tier)
+		if job.Tier == "quick" {
+			runScenarios(sub, r, all, []int{pb}, -1)
+		} else {
+			pb = 3
+			runScenarios(sub, r, all[:2], []int{3}, -1) // the two small scenarios
+			runScenarios(sub, r, all[2:], []int{1}, -1) // with the dumper thread (998 lock points)
 		}
-		runScenarios(&Job{Check: job.Check, Tier: job.Tier, Shard: job.Shard, NShards: job.NShards, Seed: job.Seed}, r, c06SchedScenarios(job.Tier), []int{pb}, -1)
 		r.Extra["part_ii"] = map[string]interface{}{"preemption_bound": pb, "rule": "writer (rotating set / delete + two-block set) + periodic flusher (+ hint dumper) under the controlled scheduler: every schedule with at most the stated number of preemptions; for each schedule every prefix of its mutation log and torn variants is recovered and judged as in part (i)"}
 	}
 	for k, v := range crashStats {
